@@ -50,6 +50,7 @@ CONSTANTS
   PayloadSel = {payloads}
   ChildMax = {childmax}
   TsigSel = {tsigsel}
+  XfrSel = {xfrsel}
 INVARIANT Emit
 CHECK_DEADLOCK FALSE
 """
@@ -65,7 +66,7 @@ def tset(xs):
 def gen_cfg(ctx, name, **kw):
     d = dict(opcodes=tset([0]), maxrecs=2, names=tset([2, 3, 4]), targets=tset([2, 4]), kinds=tset(["A", "NS"]),
              forms=tset(ALL_FORMS), edns=tset(["off"]), rcodes=tset([0]), bits=tset([256]), origins=tset([False]),
-             ttls="TtlOne", txt=tset([]), txtn=tset([1]), big=tset([]), ids=tset([4660]), pads=tset([0]), zcls=tset([1]), maxes=tset([65535]), optidx=tset([0]), secs=tset([1, 2, 3]), qsel=tset([True, False]), qmax=1, payloads=tset([70000]), childmax=0, tsigsel=tset([False]))
+             ttls="TtlOne", txt=tset([]), txtn=tset([1]), big=tset([]), ids=tset([4660]), pads=tset([0]), zcls=tset([1]), maxes=tset([65535]), optidx=tset([0]), secs=tset([1, 2, 3]), qsel=tset([True, False]), qmax=1, payloads=tset([70000]), childmax=0, tsigsel=tset([False]), xfrsel=tset([False]))
     d.update(kw)
     return ctx.cfg(name, GEN_CFG.format(**d))
 
@@ -114,6 +115,14 @@ def scripts_for(ctx, quick):
            pads=tset([0, 16]))
     # G10: chains of owners each a child of the previous one, up to 24 deep (k-th owner = k pointer hops)
     S += g("g10.cfg", names=tset([]), kinds=tset([]), maxrecs=0, childmax=24, qsel=tset([False]))
+    # G1d: legacy SIG next to RRSIG, two covered types at one owner in one section
+    S += g("g1d.cfg", names=tset([2]), targets=tset([4]), kinds=tset(["SIG", "A"]), maxrecs=3, secs=tset([1, 3]), qsel=tset([False]))
+    # G3d: update forms on a type whose RDATA may be empty (RDLENGTH 0 with class NONE / zone class is a record)
+    S += g("g3d.cfg", opcodes=tset([5]), names=tset([2]), kinds=tset(["NULL"]), maxrecs=2, edns=tset(["off"]))
+    # G11: zone-transfer style answer sections (SOA, records, SOA, records of the same owner/type again, SOA ...) parsed
+    #      with from_wire(xfr=True): every record keeps its own place, header counts = records, identical re-render
+    S += g("g11.cfg", names=tset([1, 2]), targets=tset([5]), kinds=tset(["SOA", "A"]), maxrecs=4 if quick else 5, secs=tset([1]),
+           qsel=tset([False]), xfrsel=tset([True]))
     # G3: dynamic updates: every RFC 2136 form
     S += g("g3.cfg", opcodes=tset([5]), names=tset([2, 4]), targets=tset([4]), kinds=tset(["A"] if quick else ["A", "NS"]))
     # G3b: updates of a zone whose class is not IN (CH): class ANY/NONE forms must come back with the ZONE's class
